@@ -22,9 +22,10 @@ import (
 // run (as far as they can), then it is resumed.
 type concCase struct {
 	Threads [][]HOp `json:"threads"`
+	Pre     []int   `json:"run_before_victim"` // threads run to completion before the victim starts
 	Victim  int     `json:"victim"`
 	K       int     `json:"pause_before_lock_index"`
-	Order   []int   `json:"order_of_others"`
+	Order   []int   `json:"order_of_others"` // threads run while the victim is paused
 }
 
 type concOutcome struct {
@@ -186,6 +187,10 @@ func runConc(cc concCase) (concResult, error) {
 			results[t] = append(results[t], c.do(o))
 		}
 	}
+	for _, t := range cc.Pre {
+		runThread(t)
+	}
+	ctl.ResetTrace()
 	res.Paused = ctl.StartVictim(func() { runThread(cc.Victim) }, cc.K)
 	var waits []func()
 	if res.Paused {
@@ -236,13 +241,22 @@ func genConcPrograms(r *hutil.Rand) [][]HOp {
 		audit = append(audit, g.ev(sid, "CRED_DISP", strconv.Itoa(pid)))
 	}
 	threads := [][]HOp{{login}, audit}
-	switch r.Intn(4) {
+	switch r.Intn(5) {
 	case 0: // another session with its own login, events on a third thread
 		pid2, sid2 := pid+7, strconv.Itoa(9)
 		threads[0] = append(threads[0], g.login(pid2, ""))
 		threads = append(threads, []HOp{g.ev(sid2, "LOGIN", strconv.Itoa(pid2)), g.ev(sid2, hutil.Pick(r, otherTypes), "5")})
-	case 1: // cleanup thread
-		threads = append(threads, []HOp{{Kind: "clean_sess", Cut: r.Intn(2)}, {Kind: "clean_logins", Cut: r.Intn(2)}})
+	case 1, 3: // cleanup thread
+		cl := []HOp{{Kind: "clean_sess", Cut: r.Intn(2)}, {Kind: "clean_logins", Cut: r.Intn(2)}}
+		switch r.Intn(4) {
+		case 0:
+			cl = []HOp{cl[1], cl[0]}
+		case 1:
+			cl = cl[1:]
+		case 2:
+			cl = cl[:1]
+		}
+		threads = append(threads, cl)
 	case 2: // events of another (uncorrelated) session
 		threads = append(threads, []HOp{g.ev("8", "LOGIN", "999"), g.ev("8", hutil.Pick(r, otherTypes), "5")})
 	}
@@ -290,47 +304,49 @@ func concMain(out string, n int, seed uint64) {
 			if len(others) == 2 {
 				orders = append(orders, []int{others[1], others[0]})
 			}
-			for k := 0; k < 10; k++ {
-				stop := false
-				for _, ord := range orders {
-					cc := concCase{Threads: threads, Victim: victim, K: k, Order: ord}
-					res, err := runConc(cc)
-					if err != nil {
-						sum.Fail("harness", "cannot interpret concurrent run: "+err.Error(), map[string]any{"conc": cc})
-						continue
+			for _, full := range orders {
+				for split := 0; split <= len(full); split++ {
+					if split == len(full) && len(full) > 0 {
+						continue // nobody left to run at the pause: plain sequential
 					}
-					if res.Hung {
-						sum.FailKey("oracle", "conc:deadlock", "deliveries did not complete within 5 s (deadlock): "+opsString(threads),
-							map[string]any{"conc": cc})
-						continue
-					}
-					if !res.Paused {
-						stop = true
-						break
-					}
-					sum.Count(fmt.Sprint(opsString(threads), victim, k, ord), true)
-					sum.Dist(fmt.Sprintf("pause_index_%d", k))
-					if !seqSet[res.Outcome.key()] {
-						sum.FailKey("oracle", "conc:not-linearizable",
-							fmt.Sprintf("%s — victim T%d paused before lock acquisition %d (%v), others run: outcome %s equals no sequential ordering's outcome",
-								opsString(threads), victim, k, res.Trace, res.Outcome.key()),
-							map[string]any{"conc": cc, "observed": res})
-					}
-					for i, f := range res.OthersFinished {
-						if f {
-							// another thread completed a whole program while the victim was inside a call:
-							// the call is not a critical section of one correlator-wide mutex (model: locked = true)
-							sum.FailKey("harness", "conc:call-not-atomic",
-								fmt.Sprintf("T%d ran to completion while T%d was paused inside a correlator call (before %v): calls are not critical sections of one mutex, as the model assumes",
-									ord[i], victim, lastOf(res.Trace)), map[string]any{"conc": cc})
+					pre, ord := full[:split], full[split:]
+					for k := 0; k < 10; k++ {
+						cc := concCase{Threads: threads, Pre: pre, Victim: victim, K: k, Order: ord}
+						res, err := runConc(cc)
+						if err != nil {
+							sum.Fail("harness", "cannot interpret concurrent run: "+err.Error(), map[string]any{"conc": cc})
+							continue
+						}
+						if res.Hung {
+							sum.FailKey("oracle", "conc:deadlock", "deliveries did not complete within 5 s (deadlock): "+opsString(threads),
+								map[string]any{"conc": cc})
+							continue
+						}
+						if !res.Paused {
+							break
+						}
+						sum.Count(fmt.Sprint(opsString(threads), pre, victim, k, ord), true)
+						sum.Dist(fmt.Sprintf("pause_index_%d", k))
+						sum.Dist(fmt.Sprintf("threads_before_victim_%d", len(pre)))
+						if !seqSet[res.Outcome.key()] {
+							sum.FailKey("oracle", "conc:not-linearizable",
+								fmt.Sprintf("%s — T%v run first, then victim T%d paused before lock acquisition %d (%v) while T%v run: outcome %s equals no sequential ordering's outcome",
+									opsString(threads), pre, victim, k, res.Trace, ord, res.Outcome.key()),
+								map[string]any{"conc": cc, "observed": res})
+						}
+						for i, f := range res.OthersFinished {
+							if f {
+								// another thread completed a whole program while the victim was inside a call:
+								// the call is not a critical section of one correlator-wide mutex (model: locked = true)
+								sum.FailKey("harness", "conc:call-not-atomic",
+									fmt.Sprintf("T%d ran to completion while T%d was paused inside a correlator call (before %v): calls are not critical sections of one mutex, as the model assumes",
+										ord[i], victim, lastOf(res.Trace)), map[string]any{"conc": cc})
+							}
+						}
+						if len(sum.Samples) < 3 {
+							sum.Sample(map[string]any{"program": opsString(threads), "run_before_victim": pre, "victim": victim, "pause_before_lock_index": k, "victim_lock_trace": res.Trace})
 						}
 					}
-					if len(sum.Samples) < 3 {
-						sum.Sample(map[string]any{"program": opsString(threads), "victim": victim, "pause_before_lock_index": k, "victim_lock_trace": res.Trace})
-					}
-				}
-				if stop {
-					break
 				}
 			}
 		}
